@@ -4,6 +4,7 @@ package props
 
 import (
 	"go/types"
+	"sort"
 	"strings"
 
 	"verifcheck/an"
@@ -94,4 +95,29 @@ func addLevel(prop, clause string) {
 		return
 	}
 	p.Level += " " + clause
+}
+
+// mergeIdiom arms the two-cursor sorted-merge idiom (an/merge.go) for the named functions: each
+// must still contain at least the given number of recognisable merge loops, and in each of
+// them the cursor of the smaller side advances (and only it; both may on equality).
+func mergeIdiom(c *an.Ctx, id, title string, fns map[string]int, label string) {
+	r := c.Rule(id, "K-IDIOM(sorted merge)", title)
+	total := 0
+	var specs []string
+	for s := range fns {
+		specs = append(specs, s)
+	}
+	sort.Strings(specs)
+	for _, spec := range specs {
+		f := fn(r, spec)
+		if f == nil {
+			continue
+		}
+		n := f.MergeProgress(r, label)
+		total += n
+		if n < fns[spec] {
+			r.Fail(f.Name+": merge loops", c.P.Pos(f.Body.Pos()), "%s: %d two-cursor merge loop(s) that compare the two lists recognised, %d confirmed by hand on the pinned tree — the merge was rewritten into a shape the idiom check cannot decide", f.Name, n, fns[spec])
+		}
+	}
+	c.Extra[id+"_merge_loops"] = total
 }
